@@ -56,6 +56,14 @@ Effect(reg, op, tok) ==
          THEN [reg |-> reg, res |-> [err |-> "", etag |-> reg.etag, size |-> reg.size, content |-> reg.content]]
          ELSE [reg |-> reg, res |-> [err |-> "NoSuchKey", etag |-> "", size |-> 0, content |-> <<>>]]
 
+\* Calls that protect their write with a compare-and-swap on the object row: conditional puts and
+\* deletes, and appends to an existing object.  When a competing writer that does not change the
+\* content (PutObjectTagging bumps the row's lock version) commits between the call's read and its
+\* CAS, the call fails safe: no effect, PreconditionFailed (InvalidWriteOffset for an append).
+\* SQLite's single writer never produces this; finer-grained databases do.
+CanLoseCAS(reg, op) == reg.exists /\ (op.kind = "Append" \/ (op.kind \in {"Put", "Delete"} /\ op.cond # "none"))
+LostCASError(op) == IF op.kind = "Append" THEN "InvalidWriteOffset" ELSE "PreconditionFailed"
+
 \* ------------------------------------------------------------ model checking
 VARIABLES reg,      \* the register
           pc,       \* client -> "idle" | "invoked" | "done"
@@ -101,12 +109,19 @@ Lin(c) == /\ pc[c] = "invoked"
           /\ pc' = [pc EXCEPT ![c] = "done"]
           /\ UNCHANGED <<cur, known, nops>>
 
+LinLostCAS(c) == /\ pc[c] = "invoked" /\ CanLoseCAS(reg, cur[c])
+                 /\ LET res == [NoRes EXCEPT !.err = LostCASError(cur[c])] IN
+                    /\ out' = [out EXCEPT ![c] = res]
+                    /\ hist' = Append(hist, [c |-> c, op |-> cur[c], res |-> res])
+                 /\ pc' = [pc EXCEPT ![c] = "done"]
+                 /\ UNCHANGED <<reg, cur, known, nops, ntok>>
+
 Return(c) == /\ pc[c] = "done"
              /\ known' = [known EXCEPT ![c] = IF out[c].err = "" /\ cur[c].kind # "Delete" THEN out[c].etag ELSE @]
              /\ pc' = [pc EXCEPT ![c] = "idle"]
              /\ UNCHANGED <<reg, cur, out, hist, ntok, nops>>
 
-Next == \E c \in Clients : Invoke(c) \/ Lin(c) \/ Return(c)
+Next == \E c \in Clients : Invoke(c) \/ Lin(c) \/ LinLostCAS(c) \/ Return(c)
 Spec == Init /\ [][Next]_vars
 
 \* ------------------------------------------------------------- properties
